@@ -73,7 +73,7 @@ pub fn s_call_once<F: FnOnce()>(_o: &std::sync::Once, f: F) {
 // ---- S-CASE: std case tables replaced by a model on the witness alphabet SIGMA_CASE -----------------
 // (validated against the real std functions on every witness by harness c10_model_valid)
 pub fn st_to_lower(c: char) -> [char; 3] {
-    match crate::oracle::case_to_lower(c) {
+    match super::oracle::case_to_lower(c) {
         Some(a) => a,
         None => {
             assert!(false, "MODEL: character outside the case-mapping witness alphabet");
@@ -83,7 +83,7 @@ pub fn st_to_lower(c: char) -> [char; 3] {
 }
 
 pub fn st_lowercase_lookup(c: char) -> bool {
-    match crate::oracle::case_is_lowercase(c) {
+    match super::oracle::case_is_lowercase(c) {
         Some(b) => b,
         None => {
             assert!(false, "MODEL: character outside the case-mapping witness alphabet");
@@ -94,7 +94,7 @@ pub fn st_lowercase_lookup(c: char) -> bool {
 
 // ---- S-WIDTH: the width table lookup replaced by the oracle function (Layer A: c11_width_one) ---------
 pub fn st_width(cp: u32) -> Option<u32> {
-    let m = crate::oracle::width_map(cp);
+    let m = super::oracle::width_map(cp);
     if m == 0 {
         None
     } else {
@@ -105,7 +105,7 @@ pub fn st_width(cp: u32) -> Option<u32> {
 // ---- S-COMPAT: precis_core::common::has_compat = oracle HasCompat set (cross-checked by gen.py against the real
 // unicode-normalization crate on every code point assigned in 6.3.0) ------------------------------------------
 pub fn st_has_compat(cp: u32) -> bool {
-    crate::oracle::has_compat(cp)
+    super::oracle::has_compat(cp)
 }
 
 // ---- S-PRED: every table predicate of precis_core::common returns an arbitrary, fixed outcome -----------------
@@ -143,7 +143,7 @@ static TABLE_VALUES: [precis_core::DerivedPropertyValue; 5] = [
 static mut EXC_IDX: usize = 0;
 static mut BWD_IDX: usize = 0;
 
-pub fn pred_init<S: crate::sup::Src>(s: &mut S) {
+pub fn pred_init<S: super::sup::Src>(s: &mut S) {
     // values an Exceptions / BackwardCompatible table can hold: class-independent ones
     let e = s.below(6);
     let b = s.below(6);
@@ -192,4 +192,78 @@ pub fn pred_set_all_false(punct: bool) {
         EXC_IDX = 5;
         BWD_IDX = 5;
     }
+}
+
+// ---- S-CTX: the context table predicates = oracle functions (Layer A: c03_nb_* harnesses) ---------------------
+fn ctx(cp: u32, bit: u16) -> bool {
+    super::oracle::ctx_mask(cp) & bit != 0
+}
+pub fn sc_virama(cp: u32) -> bool { ctx(cp, super::oracle::CTX_VIRAMA) }
+pub fn sc_greek(cp: u32) -> bool { ctx(cp, super::oracle::CTX_GREEK) }
+pub fn sc_hebrew(cp: u32) -> bool { ctx(cp, super::oracle::CTX_HEBREW) }
+pub fn sc_hiragana(cp: u32) -> bool { ctx(cp, super::oracle::CTX_HIRAGANA) }
+pub fn sc_katakana(cp: u32) -> bool { ctx(cp, super::oracle::CTX_KATAKANA) }
+pub fn sc_han(cp: u32) -> bool { ctx(cp, super::oracle::CTX_HAN) }
+pub fn sc_dual(cp: u32) -> bool { ctx(cp, super::oracle::CTX_JT_D) }
+pub fn sc_left(cp: u32) -> bool { ctx(cp, super::oracle::CTX_JT_L) }
+pub fn sc_right(cp: u32) -> bool { ctx(cp, super::oracle::CTX_JT_R) }
+pub fn sc_transparent(cp: u32) -> bool { ctx(cp, super::oracle::CTX_JT_T) }
+
+// ---- S-DPV: stringclasses::get_derived_property_value = the oracle decision list (discharged by C14) -----------
+pub fn st_dpv(cp: u32, obj: &dyn precis_core::stringclasses::SpecificDerivedPropertyValue) -> precis_core::DerivedPropertyValue {
+    use precis_core::DerivedPropertyValue::*;
+    let e = super::oracle::exception_val(cp);
+    if e != 255 {
+        return super::c14::dpv_of(e);
+    }
+    let m = super::oracle::pred_mask(cp);
+    if m & 1 != 0 {
+        Unassigned
+    } else if m & 2 != 0 {
+        PValid
+    } else if m & 4 != 0 {
+        ContextJ
+    } else if m & (8 | 16 | 32) != 0 {
+        Disallowed
+    } else if m & 64 != 0 {
+        obj.on_has_compat()
+    } else if m & 128 != 0 {
+        PValid
+    } else if m & 256 != 0 {
+        obj.on_other_letter_digits()
+    } else if m & 512 != 0 {
+        obj.on_spaces()
+    } else if m & 1024 != 0 {
+        obj.on_symbols()
+    } else if m & 2048 != 0 {
+        obj.on_punctuation()
+    } else {
+        Disallowed
+    }
+}
+
+// ---- S-RULE: an arbitrary rule registry with arbitrary rule outcomes (harness c02_any_class) -------------------
+// get_context_rule(cp) = Some(fake rule) iff the solver-chosen flag of that character is set; the fake rule's
+// outcome is a solver-chosen function of the offset.  allows()/allowed_by_context_rule run unchanged.
+pub static mut ANY_CS: [u32; 8] = [0; 8];
+pub static mut ANY_HAS_RULE: [bool; 8] = [false; 8];
+pub static mut ANY_OUT: [u8; 8] = [0; 8];
+pub fn fake_rule(_s: &str, off: usize) -> Result<bool, precis_core::context::ContextRuleError> {
+    let o = unsafe { if off < 8 { ANY_OUT[off] } else { 3 } };
+    match o {
+        0 => Ok(true),
+        1 => Ok(false),
+        2 => Err(precis_core::context::ContextRuleError::NotApplicable),
+        _ => Err(precis_core::context::ContextRuleError::Undefined),
+    }
+}
+pub fn sr_get_rule(cp: u32) -> Option<precis_core::context::ContextRule> {
+    let mut i = 0;
+    while i < 8 {
+        if unsafe { ANY_CS[i] } == cp {
+            return if unsafe { ANY_HAS_RULE[i] } { Some(fake_rule) } else { None };
+        }
+        i += 1;
+    }
+    None
 }
